@@ -136,6 +136,9 @@ def faults():
     for two in ("Label/##", "Item-count/#-#", "Red, (Label/#_#, Blue)", "Label/# #"):      # both '#' in one tag
         add("value-column-two-placeholders", {"PLACEHOLDER_INVALID"}, set_at(B, ("val", "HED"), two))
     add("value-column-no-placeholder", {"PLACEHOLDER_INVALID"} | TYPE_CODES, set_at(B, ("val", "HED"), "Red"))
+    for empty in ("", " ", "n/a"):
+        add("value-column-no-placeholder", {"PLACEHOLDER_INVALID"} | TYPE_CODES, set_at(B, ("val", "HED"), empty))
+        add("value-column-no-placeholder", {"PLACEHOLDER_INVALID"} | TYPE_CODES, {"val": {"HED": empty}})
     # 4 categorical entry with '#'
     for col, key in (("cat", "a"), ("other", "x"), ("other", "y")):
         add("category-with-placeholder", {"PLACEHOLDER_INVALID"}, set_at(B, (col, "HED", key), "Label/#"))
@@ -206,6 +209,11 @@ def valid_sidecars():
     yield dict(BASE, defs=defs)
     yield dict(set_at(set_at(BASE, ("val", "HED"), "Def/Dv/#"), ("cat", "HED", "a"), "Def/Dd, (Def/Dv/x, Red)"), defs=defs)
     yield dict([("defs", defs)] + list(BASE.items()))
+    # a referenced column whose name has capitals and whose entries are complete only where they are spliced in
+    for name in ("Phase", "trial_Phase2", "PHASE", "phase"):
+        yield {"defs": defs, name: {"HED": {"start": "Onset", "end": "Offset"}},
+               "ev": {"HED": {"x": "(Def/Dd, {%s})" % name, "y": "Red"}}}
+        yield {name: {"HED": "Label/#"}, "ev": {"HED": {"x": "(Red, {%s})" % name}}}
     yield {}
 
 
